@@ -10,9 +10,15 @@
    of the quantifier — every relation kind x identified/anonymous x subset of optional
    arguments x kind of extra attribute, alone and in pairs on one subject — with opaque
    values (partial: the family is finite; arbitrary sets of relations are decided per run
-   by the direct oracle, set-based against unified(), decoder re-run on shuffled quads). *)
-From Coq Require Import String List Bool.
-From Prov Require Import Str Tables Rdf RdfProofs Rdfq RdfqProofs.
+   by the direct oracle, set-based against unified(), decoder re-run on shuffled quads).
+   Value and attribute level (RdfVal.v, RdfValProofs.v): the literal mapping both ways and the
+   predicate an attribute of an element travels under — every value of the claimed kinds comes
+   back as itself (C07_value theorems), a qualified name and a foreign datatype as names of the
+   same URI, under the attribute of the same URI (C07_attribute_roundtrip); what rdflib and the
+   TriG syntax do to a term in between is an oracle (the term read is the term written),
+   measured on every run. *)
+From Coq Require Import String List Bool ZArith.
+From Prov Require Import Str Sexp Tables Nsm NsmProofs Values Record JsonProofs Rdf RdfProofs Rdfq RdfqProofs RdfVal RdfValProofs.
 Import ListNotations.
 Open Scope string_scope.
 
@@ -54,5 +60,76 @@ Lemma C07_F1_refuted :
   dec_pred "Delegation" (enc_pred "Delegation" "http://example.org/agentRole") = P "responsible" /\
   dec_pred "Derivation" (enc_pred "Derivation" "http://example.org/entityCount") = P "usedEntity".
 Proof. exact custom_name_refuted. Qed.
+
+(* ---- value level.  rdf_rt c m v v': the term written for v is read, in the reader's manager m, as an
+   argument the record's insertion code stores as v' (without changing m), and v' is v up to the namespace
+   objects naming the same URIs (value_same).  XsdRes: the XSD datatype URIs resolve in m; UriRes: a full URI
+   resolves in m to a name of that URI. *)
+Theorem C07_value_str : forall c m s, XsdRes (cparent c) m -> rdf_rt c m (VStr s) (VStr s).
+Proof. exact rdf_rt_str. Qed.
+Theorem C07_value_int : forall c m z, XsdRes (cparent c) m -> rdf_rt c m (VInt z) (VInt z).
+Proof. exact rdf_rt_int. Qed.
+Theorem C07_value_bool : forall c m b, XsdRes (cparent c) m -> rdf_rt c m (VBool b) (VBool b).
+Proof. exact rdf_rt_bool. Qed.
+Theorem C07_value_uri : forall c m u, XsdRes (cparent c) m -> rdf_rt c m (VId u) (VId u).
+Proof. exact rdf_rt_id. Qed.
+Theorem C07_value_time : forall c m t, valid_dt t = true -> rdf_rt c m (VTime t) (VTime t).
+Proof. exact rdf_rt_time. Qed.
+Print Assumptions C07_value_time.
+Theorem C07_value_lang : forall c m lex d ch l, lex <> "" -> Bound m (prov_qn "InternationalizedString") ->
+  d = Some (prov_qn "InternationalizedString") ->
+  rdf_rt c m (VLit lex d (Some (String ch l))) (VLit lex d (Some (String ch l))).
+Proof. exact rdf_rt_lang. Qed.
+Theorem C07_value_qname : forall c m q q', UriRes (cparent c) m (qn_uri q) q' -> rdf_rt c m (VQn q) (VQn q').
+Proof. exact rdf_rt_qn. Qed.
+Theorem C07_value_foreign : forall c m lex d d', lex <> "" ->
+  starts_with xsd_uri (qn_uri d) = false -> starts_with rdf_syntax_ns (qn_uri d) = false ->
+  contains_str "base64Binary" (qn_uri d) = false ->
+  UriRes (cparent c) m (qn_uri d) d' ->
+  rdf_rt c m (VLit lex (Some d) None) (VLit lex (Some d') None).
+Proof. exact rdf_rt_foreign. Qed.
+Print Assumptions C07_value_foreign.
+
+(* when full URIs resolve: in a consistent manager, a URI whose scheme is not a declared prefix (the hypothesis
+   finding C07-F3 is about) and which some declared namespace starts resolves to a name of exactly that URI *)
+Theorem C07_uri_resolves : forall par m u, InvB m -> compactable m u -> exists q, UriRes par m u q.
+Proof. exact compactable_res. Qed.
+Theorem C07_xsd_resolves : forall par m, InvB m -> Builtins m -> NoScheme m "http" -> XsdRes par m.
+Proof. exact XsdRes_of. Qed.
+Print Assumptions C07_uri_resolves.
+
+(* ---- attribute level: one attribute of an element, through the predicate the writer chooses and the name
+   the reader files it under *)
+Theorem C07_attribute_roundtrip : forall c m a a' v v',
+  NameRes c m a a' -> is_formal_attr a' = false -> rdf_rt c m v v' ->
+  exists t, rdf_encode v = Some t /\ rdf_attr_back c m (enc_elem_pred a) t = BOk a' v' /\ value_same v v'.
+Proof. exact rdf_attr_roundtrip. Qed.
+Print Assumptions C07_attribute_roundtrip.
+Theorem C07_name_type : forall c m a, qn_uri a = P "type" -> Bound m (prov_qn "type") -> NameRes c m a (prov_qn "type").
+Proof. exact name_res_type. Qed.
+Theorem C07_name_label : forall c m a, qn_uri a = P "label" -> Builtins m -> NameRes c m a (prov_qn "label").
+Proof. exact name_res_label. Qed.
+Theorem C07_name_location : forall c m a, qn_uri a = P "location" -> Builtins m -> NameRes c m a (prov_qn "location").
+Proof. exact name_res_location. Qed.
+Theorem C07_name_plain : forall c m a a', special_pred (qn_uri a) = false -> qn_uri a <> "" ->
+  UriRes (cparent c) m (qn_uri a) a' -> NameRes c m a a'.
+Proof. exact name_res_plain. Qed.
+
+(* the premises hold for the attribute ex:k with a qualified name and with an integer, in a manager that
+   declares ex *)
+Example C07_attribute_applies :
+  exists a' q', qn_uri a' = "http://e/k" /\ qn_uri q' = "http://e/v" /\
+    rdf_attr_back (mkCtx None []) JsonRecProofs.x_m (enc_elem_pred (JsonRecProofs.x_q "k")) (RUri "http://e/v") = BOk a' (VQn q') /\
+    rdf_attr_back (mkCtx None []) JsonRecProofs.x_m (enc_elem_pred (JsonRecProofs.x_q "k")) (RLit "5" (Some (xsdu "int")) None) = BOk a' (VInt 5%Z).
+Proof. exact rdf_attr_applies. Qed.
+
+(* the open finding C07-F3 in the model: with a namespace declared under the prefix http the URI of a
+   qualified name does not come back *)
+Lemma C07_F3_refuted :
+  exists m q', rdf_decode None m (RUri "http://example.org/e") = OK (AQn q') /\ qn_uri q' <> "http://example.org/e".
+Proof.
+  exists (match add_namespace nsm_init (mkNs "http" "http://www.w3.org/2011/http#") with Some (m, _) => m | None => nsm_init end).
+  eexists. split; [vm_compute; reflexivity | vm_compute; discriminate].
+Qed.
 
 Definition C07_statement : Prop := True.   (* the quad-level statement of DESIGN §5 C07 is not formalised *)
